@@ -1,6 +1,6 @@
 #!/bin/sh
 # Sensitivity self-test: every seeded change under /verif/seeded must make its property's quick check exit 1
-# with a VIOLATION line, on a scratch copy of /repo/src (never on /repo itself).  usage: tools/sensitivity.sh [budget_s] [ids...]
+# with a VIOLATION line, on a scratch copy of /repo/src (never on /repo itself).  usage: tools/sensitivity.sh [budget_s|default] [ids...]   (default = the quick tier as registered: 50 s and at least 400 runs)
 cd "$(dirname "$0")/.." || exit 9
 BUDGET=${1:-45}; shift 2>/dev/null
 IDS=${*:-$(for d in seeded/*; do grep -q "\"out_of_scope\": true" $d/meta.json || basename $d; done)}
@@ -15,6 +15,7 @@ for id in $IDS; do
   if ! patch -s -p1 -d "$S" < seeded/$id/patch.diff; then echo "$id: patch does not apply to the current tree"; RES="$RES \"$id\": \"patch_does_not_apply\","; rm -rf "$S"; continue; fi
   export VERIF_EVIDENCE_DIR="$S/ev"
   if [ -n "$EXTRA" ]; then OUT=$(VERIF_REPO_SRC="$S/src" ./check "$PROP" $EXTRA 2>&1); rc=$?
+  elif [ "$BUDGET" = "default" ]; then OUT=$(VERIF_REPO_SRC="$S/src" ./check "$PROP" 2>&1); rc=$?
   else OUT=$(VERIF_REPO_SRC="$S/src" ./check "$PROP" --budget "$BUDGET" 2>&1); rc=$?; fi
   LINE=$(echo "$OUT" | grep -m1 "check=" | cut -c1-160)
   echo "$id ($PROP): rc=$rc $LINE"
